@@ -319,6 +319,14 @@ theorem unmarshal_alloc_bound' (t : VTTile) : unmarshalAlloc t ≤ vtSize t := b
   rw [hs, Nat.zero_add] at h
   exact h
 
+/-- The same for the decoder run with any orientation function (Go: the float64 shoelace). -/
+theorem unmarshal_total_ori' (ori : List (Pt Int) → Int) (t : VTTile) :
+    (unmarshalVTWith ori t).1.isPanic = false ∧ (unmarshalVTWith ori t).2 ≤ vtSize t := by
+  have h := decodeLayers_spec ori 0 t
+  have hs : (t.map layerSize).sum = vtSize t := rfl
+  rw [hs, Nat.zero_add] at h
+  exact h
+
 /-- The gzip magic test never indexes out of range: `Unmarshal` panics only if `unmarshalTile` does. -/
 theorem unmarshal_top_total' {α : Type} (data : List UInt8) (r : R α) (h : r.isPanic = false) :
     (unmarshalTop data r).isPanic = false := by
